@@ -234,7 +234,7 @@ class C11(ConnProp):
                 same = (fa['rd'] == mb.group(1) and str(fa['held']) == mb.group(2) and mb.group(3) == '0'
                         and fa['reqs'] == sreqs)
                 if fa['sys'] == 0:
-                    same = True     # the main call made no system call (nothing to replay)
+                    same = False    # a new connection would have performed the read
                 if not same:
                     v.append({'case': t, 'small': bool(m.get('small')),
                               'oracle': 'after the first parse error, a new connection with the same limit fed the same bytes',
@@ -384,11 +384,35 @@ class C13(ConnProp):
             ops += [[2, 1 << 20]] + [[3, 100000]] * 6
             out.append(self.mk(limit, stream, ops, {'kind': 'expect-mix', 'want': [w.decode() for w in want],
                                                    'has_expect': True}))
-        return out
+        return out + self.server_cases(rng, tier)
 
     def oracle(self, cases, impl):
         v = []
         for cid, t, m in cases:
+            if m['kind'] == 'server-expect':
+                lines = impl.get(cid, [])
+                # through the server the client receives 100 Continue without having sent the body, then the
+                # request is yielded normally once the body arrives
+                rx = b''
+                stage = {}
+                for ln in lines:
+                    p = ln.split(' ')
+                    if len(p) > 6 and p[3] == 'drain' and p[4] == '0':
+                        rx += bytes.fromhex(p[5]) if p[5] != '-' else b''
+                        stage[int(p[2])] = rx
+                bad = None
+                for (i_drain, due) in m['due']:
+                    have = stage.get(i_drain, b'').count(b' 100 \r\n')
+                    if have != due:
+                        bad = ('%d interim responses received by the drain at step %d' % (due, i_drain), 'received %d' % have)
+                        break
+                ny = sum(len(ln.split(' | ')) - 1 for ln in lines if ' poll Ok ' in ln)
+                if not bad and ny != m['nreq']:
+                    bad = ('%d requests yielded' % m['nreq'], '%d yielded' % ny)
+                if bad:
+                    v.append({'case': t, 'oracle': 'interim responses on the wire through HttpServer (real sockets)',
+                              'expected': bad[0], 'observed': bad[1], 'signature': 'C13:server'})
+                continue
             got = []
             for ln in impl.get(cid, []):
                 f = parse_rd(ln)
@@ -406,7 +430,56 @@ class C13(ConnProp):
         return v
 
     def nontrivial(self, tree, meta, impl_lines):
+        if tree[0] == 9:
+            return repr(tree[3])[:2000]
         return (bytes(tree[3]), repr(tree[4])) if meta.get('want') else None
+
+    tie_groups = ['Limits', 'Tokens', 'Headers', 'Server', 'Response']
+
+    def server_cases(self, rng, tier):
+        out = []
+        for _ in range(150 if tier == 'quick' else 6000):
+            ops = [[0, 0], [11, 4]]
+            due = []
+            ndue = 0
+            nreq = 0
+            k = 0
+            for _ in range(rng.randint(1, 3)):
+                style = rng.choice(['head-then-body', 'plain+head', 'head+body', 'plain'])
+                ver = rng.choice([b'HTTP/1.0', b'HTTP/1.1'])
+                ex = rng.choice([b'Expect: 100-continue', b'expect:100-continue', b'EXPECT:  100-continue  '])
+                head = b'PUT /c0/r%d ' % (k + (1 if style == 'plain+head' else 0)) + ver + b'\r\nContent-Length: 4\r\n' + ex + b'\r\n\r\n'
+                plain = b'GET /c0/r%d HTTP/1.1\r\n\r\n' % k
+                answer_now = rng.random() < 0.4
+                if style == 'plain':
+                    ops += [[1, 0, plain], [11, 6]]
+                    k += 1
+                    nreq += 1
+                elif style == 'head-then-body':
+                    ops += [[1, 0, head], [11, 6], [5, 0]]
+                    ndue += 1
+                    due.append((len(ops) - 1, ndue))
+                    ops += [[1, 0, b'body'], [11, 6]]
+                    k += 1
+                    nreq += 1
+                elif style == 'plain+head':
+                    ops += [[1, 0, plain + head], [11, 6], [5, 0]]
+                    ndue += 1
+                    due.append((len(ops) - 1, ndue))
+                    ops += [[1, 0, b'body'], [11, 6]]
+                    k += 2
+                    nreq += 2
+                else:
+                    ops += [[1, 0, head + b'body'], [11, 6], [5, 0]]
+                    ndue += 1
+                    due.append((len(ops) - 1, ndue))
+                    k += 1
+                    nreq += 1
+                if answer_now:
+                    ops += [[12, 0], [11, 4]]
+            ops += [[12, 0]] * 6 + [[11, 8], [5, 0]]
+            out.append(([9, 0, ops], {'kind': 'server-expect', 'due': due, 'nreq': nreq, 'want': ['srv']}))
+        return out
 
 
 # ------------------------------------------------------------------------------------ C04
@@ -460,6 +533,33 @@ class C04(ConnProp):
             ops = reqgen.schedule(rng, stream, rng.choice(STYLES))
             out.append(self.mk(51200, stream, ops, {'kind': 'line-' + where, 'line': ll, 'where': where,
                                                     'near': abs(ll - 1024) <= 3, 'npre': pre.count(b' HTTP/1.')}))
+        # server level: each connection keeps the limit configured when its client connected; the 400 reports both numbers
+        for _ in range(120 if tier == 'quick' else 5000):
+            L1, L2 = rng.sample([0, 3, 4, 8, 10, 100, 1024, 2000], 2)
+            n = rng.choice([min(L1, L2) + 1, max(L1, L2), max(L1, L2) + 1, min(L1, L2), (L1 + L2) // 2 or 1])
+            if n == 0:
+                n = 1
+            body = b'z' * min(n, 4000)
+
+            def req(c, k):
+                return b'PUT /c%d/r%d HTTP/1.1\r\nContent-Length: %d\r\n\r\n' % (c, k, n) + body
+            ops = [[10, L1], [0, 0], [11, 4]]
+            if rng.random() < 0.5:
+                ops += [[1, 0, req(0, 0)[:rng.randint(1, 30)]], [11, 4]]
+                first_sent = True
+            else:
+                first_sent = False
+            ops += [[10, L2], [0, 1], [11, 4]]
+            sends = [[1, 0, req(0, 0)[rng.randint(1, 30):] if False else req(0, 0)], [1, 1, req(1, 0)]]
+            if first_sent:
+                # client 0 already sent a prefix: send the rest of the same request
+                pref = ops[3][2]
+                sends[0] = [1, 0, req(0, 0)[len(pref):]]
+            rng.shuffle(sends)
+            for sd in sends:
+                ops += [sd, [11, 6]]
+            ops += [[12, 0], [12, 0], [11, 6], [5, 0], [5, 1]]
+            out.append(([9, 0, ops], {'kind': 'server-limit', 'limits': [L1, L2], 'n': n, 'near': True}))
         # unterminated lines: rejected exactly when BUF bytes of them have arrived
         for k in ([1022, 1023, 1024, 1025] if True else []):
             for where in ('reqline', 'header'):
@@ -471,6 +571,26 @@ class C04(ConnProp):
         v = []
         for cid, t, m in cases:
             lines = impl.get(cid, [])
+            if m['kind'] == 'server-limit':
+                n = m['n']
+                for c, L in enumerate(m['limits']):
+                    got = b''
+                    for ln in lines:
+                        p = ln.split(' ')
+                        if len(p) > 6 and p[3] == 'drain' and p[4] == str(c) and p[5] != '-':
+                            got += bytes.fromhex(p[5])
+                    if n > L:
+                        want = b'Request payload with size %d is larger than the limit of %d allowed by server.' % (n, L)
+                        if not got.startswith(b'HTTP/1.1 400 ') or want not in got:
+                            v.append(self.viol(t, 'client %d connected under limit %d and declared %d: a 400 reporting both numbers' % (c, L, n),
+                                               repr(got[:160]), 'server-limit'))
+                            break
+                    else:
+                        if b'echo:/c%d/r0' % c not in got:
+                            v.append(self.viol(t, 'client %d connected under limit %d and declared %d: the request is served' % (c, L, n),
+                                               repr(got[:160]), 'server-limit'))
+                            break
+                continue
             d = deliveries(lines)
             if m['kind'] == 'limit':
                 L, n = m['L'], m['n']
@@ -517,7 +637,11 @@ class C04(ConnProp):
                 'signature': 'C04:' + sig}
 
     def nontrivial(self, tree, meta, impl_lines):
+        if tree[0] == 9:
+            return repr(tree[3])[:2000]
         return (tree[2], bytes(tree[3]), repr(tree[4])) if meta.get('near') else None
+
+    tie_groups = ['Limits', 'Tokens', 'Headers', 'Server']
 
 
 def cut_exact_sizes(n, buf=1024):
